@@ -16,6 +16,15 @@ CHECKS = {
         "front end repeats symmetrically are covered by C09/C04, not here. Shared transcendental kernels: only which intrinsic/arguments is checked.",
         "DESIGN.md §5 C01, appendix A",
     ),
+    "C03": (
+        "invariant monitor on returned state: independent re-typing of every accepted IR module + single-fault injection table",
+        "Every module the type checker accepts (unit-test snippets, corpus, thousands of generated programs) is re-typed expression by "
+        "expression by an independent checker written from the property, and the IR's own typing function is called on every expression "
+        "under panic capture; a complete table of ~2450 programs carrying exactly one violation of the five named classes (each with an "
+        "accepted twin) must be rejected. Exploration; the negative table is enumerated completely in both tiers.",
+        "Rules are the property's (with the documented untyped-literal relaxation); an ill-typed program outside the five classes is not detected.",
+        "DESIGN.md §5 C03",
+    ),
     "C04": (
         "differential monitor: second-generation compile of the emitted DirectX HLSL compared byte for byte and slot by slot",
         "For every accepted input (tests/ corpus entry files, all unit-test snippets, generated executable and declaration programs) the "
@@ -35,6 +44,15 @@ CHECKS = {
         "DESIGN.md §5 C08, §2.2, §2.4",
     ),
 }
+
+CHECKS["C19"] = (
+    "reference-model monitor: independent HLSL/Metal struct layout calculator vs. the verdict and message of layout validation",
+    "For all flat structs with <= 3 members (10% slice in quick, all in thorough) and ~60k/1M random nested structs used as buffer element "
+    "types, an independent layout calculator (cross-checked against clang on 3000 structs) decides whether HLSL and Metal layouts agree "
+    "(size and every field offset): acceptance of an inconsistent layout, or a rejection reporting wrong sizes, is a violation.",
+    "Trusts the reference layout rules (unpacked Metal vectors, re-checked on emitted MSL for 1 case in 8). Matrices/bool members not generated.",
+    "DESIGN.md §5 C19",
+)
 
 NOT_YET = {}
 
